@@ -460,6 +460,20 @@ def is_nul_truncation(e: ast.expr, data: str) -> bool:
                 and norm(t.left) in ("0", "b'\\x00'") and norm(o) in (f"len({data})", "None") \
                 and norm(b) in (f"{data}.find(0)", f"{data}.index(0)", f"{data}.find(b'\\x00')", f"{data}.index(b'\\x00')"):
             return True
+    # D if D.find(0) < 0 else D[:D.find(0)]      (and == -1 / >= 0 / != -1, branches swapped accordingly)
+    if isinstance(e, ast.IfExp) and isinstance(e.test, ast.Compare) and len(e.test.ops) == 1:
+        finds = (f"{data}.find(0)", f"{data}.find(b'\\x00')")
+        l, op, r = norm(e.test.left), e.test.ops[0], norm(e.test.comparators[0])
+        absent = None          # True: the test holds when there is no NUL
+        if l in finds and ((isinstance(op, ast.Lt) and r == "0") or (isinstance(op, ast.Eq) and r == "-1") or (isinstance(op, ast.LtE) and r == "-1")):
+            absent = True
+        elif l in finds and ((isinstance(op, ast.GtE) and r == "0") or (isinstance(op, ast.NotEq) and r == "-1") or (isinstance(op, ast.Gt) and r == "-1")):
+            absent = False
+        if absent is not None:
+            whole, cut = (e.body, e.orelse) if absent else (e.orelse, e.body)
+            if norm(whole) == data and isinstance(cut, ast.Subscript) and isinstance(cut.slice, ast.Slice) and cut.slice.lower is None \
+                    and cut.slice.step is None and norm(cut.value) == data and cut.slice.upper is not None and norm(cut.slice.upper) in finds:
+                return True
     # D.split(b"\0", 1)[0] / D.split(b"\0")[0] / D.partition(b"\0")[0]
     if isinstance(e, ast.Subscript) and norm(e.slice) == "0" and isinstance(e.value, ast.Call) and isinstance(e.value.func, ast.Attribute) \
             and norm(e.value.func.value) == data and e.value.func.attr in ("split", "partition") and e.value.args \
@@ -517,9 +531,28 @@ def cstring_decode(fn: ast.FunctionDef, data: str):
     return None
 
 
+def section_helpers(repo: Repo, ci: ClassInfo) -> Tuple[str, ...]:
+    """Public helper methods of a reader class (own or inherited) that wrap the section protocol — a short straight-line body that
+    calls `self.rewind(...)` — e.g. `read_section(reader_class, data, **args)`: handlers that use one are read through it."""
+    out = []
+    try:
+        mro = repo.mro(ci)
+    except Exception:
+        mro = [ci]
+    for k in mro:
+        for name, m in k.methods.items():
+            if name.startswith(("process_", "__")) or name in ("rewind", "process_chunks") or name in out:
+                continue
+            if len([st for st in m.body if not (isinstance(st, ast.Expr) and isinstance(st.value, ast.Constant))]) <= 4 \
+                    and not any(isinstance(n, (ast.For, ast.While, ast.Try, ast.With, ast.If)) for n in ast.walk(m)) \
+                    and any(isinstance(c, ast.Call) and norm(c.func) == "self.rewind" for c in ast.walk(m)):
+                out.append(name)
+    return tuple(out)
+
+
 def classify_handler(repo: Repo, ci: ClassInfo, cid: str, fn: ast.FunctionDef) -> RRow:
     from . import inline
-    fn = inline.normalize(repo, ci, fn, aliases=True)
+    fn = inline.normalize(repo, ci, fn, aliases=True, also=section_helpers(repo, ci))
     body = stmts_of(fn)
     row = RRow(cid, "custom", None, [], "", fn, ci.qualname, ci.file.rel, stmts=[norm(s) for s in body])
     params = [a.arg for a in fn.args.args if a.arg != "self"]
